@@ -16,6 +16,9 @@ type solverSpec struct {
 
 var solverSeed int
 
+// lateAfterS: seconds after which the late portfolio joins an undecided race.
+const lateAfterS = 3
+
 func solverList(timeoutS int) []solverSpec {
 	ts := itoa(timeoutS)
 	sd := itoa(solverSeed)
@@ -87,7 +90,7 @@ func solveRace(script string, timeoutS int, all bool) (best solveResult, results
 	ctx, cancel := context.WithCancel(context.Background())
 	defer cancel()
 	specs := solverList(timeoutS)
-	ch := make(chan solveResult, len(specs))
+	ch := make(chan solveResult, len(specs)+2)
 	var wg sync.WaitGroup
 	for _, s := range specs {
 		wg.Add(1)
@@ -95,6 +98,31 @@ func solveRace(script string, timeoutS int, all bool) (best solveResult, results
 			defer wg.Done()
 			ch <- runSolver(ctx, s, script, timeoutS)
 		}(s)
+	}
+	if !all && timeoutS > lateAfterS {
+		// late portfolio: a goal that no solver has decided after a few seconds is often one
+		// whose solving time varies wildly with the random seed (seconds to minutes); two more
+		// z3 runs with other seeds join the race for the time that is left
+		ch2 := ch
+		wg.Add(1)
+		go func() {
+			defer wg.Done()
+			select {
+			case <-ctx.Done():
+				return
+			case <-time.After(time.Duration(lateAfterS) * time.Second):
+			}
+			rest := timeoutS - lateAfterS
+			for k := 1; k <= 2; k++ {
+				sd := itoa(solverSeed + 1000*k + 7)
+				sp := solverSpec{"z3-5.1.0(seed " + sd + ")", []string{"z3-new", "-in", "-T:" + itoa(rest), "smt.random_seed=" + sd, "sat.random_seed=" + sd}}
+				wg.Add(1)
+				go func(sp solverSpec) {
+					defer wg.Done()
+					ch2 <- runSolver(ctx, sp, script, rest)
+				}(sp)
+			}
+		}()
 	}
 	go func() { wg.Wait(); close(ch) }()
 	got := false
